@@ -208,10 +208,15 @@ async def _drive_actor(case: dict[str, Any], log: list[Any]) -> None:
 
     loop = asyncio.get_event_loop()
     saved_limit, saved_delay = Actor._restart_limit, Actor.RESTART_DELAY  # noqa: SLF001
-    Actor._restart_limit = case["limit"]  # noqa: SLF001
     Actor.RESTART_DELAY = timedelta(seconds=case["delay"])
     try:
         a = _make_actor(case["runs"], log, "a")
+        # the restart limit is configured where a user of the class would configure it: on the actor's own class
+        # (half of the cases) or on the instance - the base class keeps its default
+        if len(case["runs"]) % 2:
+            type(a)._restart_limit = case["limit"]  # noqa: SLF001
+        else:
+            a._restart_limit = case["limit"]  # noqa: SLF001
         t0 = loop.time()
         bg: list[asyncio.Task[Any]] = []
         earlier_lives: set[Any] = set()
